@@ -219,6 +219,9 @@ func (in *inliner) simpleArg(e ast.Expr) bool {
 		return (x.Op == token.AND || x.Op == token.SUB || x.Op == token.NOT) && in.simpleArg(x.X)
 	case *ast.IndexExpr:
 		return in.simpleArg(x.X) && in.simpleArg(x.Index)
+	case *ast.BinaryExpr:
+		// arithmetic and flag combinations of simple operands (`env.Flags | flagCompressed`)
+		return in.simpleArg(x.X) && in.simpleArg(x.Y)
 	case *ast.CallExpr:
 		// conversions and len/cap of simple operands
 		if tv, ok := in.info.Types[x.Fun]; ok && tv.IsType() && len(x.Args) == 1 {
@@ -234,6 +237,18 @@ func (in *inliner) simpleArg(e ast.Expr) bool {
 		return true
 	}
 	return false
+}
+
+// useCount counts the identifiers in body that refer to obj.
+func (in *inliner) useCount(body ast.Node, obj types.Object) int {
+	n := 0
+	ast.Inspect(body, func(x ast.Node) bool {
+		if id, ok := x.(*ast.Ident); ok && in.info.Uses[id] == obj {
+			n++
+		}
+		return true
+	})
+	return n
 }
 
 // paramAssigned reports whether obj is assigned or has its address taken in body.
@@ -399,6 +414,12 @@ func (in *inliner) bindParams(fd *ast.FuncDecl, call *ast.CallExpr, recv ast.Exp
 			return
 		}
 		if in.simpleArg(arg) && !in.paramAssigned(fd.Body, obj) {
+			subst[obj] = arg
+			return
+		}
+		// a pure argument (a lookup like pools.Get(name)) handed to a helper that consists of one
+		// expression and uses the parameter once: evaluated at its single use instead of up front
+		if singleExpr(fd) != nil && in.norm != nil && in.norm.pureExpr(arg, 0) && !in.paramAssigned(fd.Body, obj) && in.useCount(fd.Body, obj) <= 1 {
 			subst[obj] = arg
 			return
 		}
